@@ -298,6 +298,25 @@ CLAIMED["C07"]["text"] += " Round 5: the SDS whole-file sessions of vlib/small4.
 CLAIMED["C08"]["text"] += " Round 5: VOC read/write handles are repaired (SFC_FILE_TRUNCATE, idle open/close); every container gets a deterministic 'open rw, close, open rw, read, close' history."
 CLAIMED["C06"]["text"] += " Round 5: DWVW read calls may be cut anywhere (dwvw_read_split, full strength in every decoder state, since the repair of KF-DWVW-TAIL-CALL)."
 CLAIMED["C01"]["text"] += " Round 5: the DWVW round trip (dwvw_roundtrip) is unconditional for 12 / 16 / 24 bits since the repair of KF-DWVW-TAIL-CALL."
+CLAIMED["C12"]["text"] += (
+    " Round 5: the three silent string truncations are repaired in the library (a too-long LIST/INFO item is skipped on its own and the INFO text buffer is allocated from the LIST size; "
+    "AIFF text chunks are read into a buffer allocated from the chunk size; the CAF writer's buffer is allocated from the string storage) and psf_bump_header_allocation grows the header buffer to its "
+    "100 KiB limit instead of refusing a request whose double passes it. The string theorems are full strength in the lengths: info_roundtrip, aiff_text_roundtrip / aiff_text_lengths_full, caf_info_roundtrip hold for "
+    "every text the header buffer can hold (explicit hypothesis `<= HEADER_CAP`), the former limits are *_old_rule theorems, and SfProps/C12Round.lean states one meta_roundtrip per container "
+    "(meta_roundtrip_wav / _wavex / _rf64 over every handle state within the explicit limits `WithinRiff` with `normaliseRiff` as an explicit function; meta_roundtrip_aiff; meta_roundtrip_caf), bext / cart from the SET "
+    "call to the re-opened RF64 file (bext_set_reopen, cart_set_reopen) and the chan chunk for every layout tag (chan_all_layout_tags). The campaign sets strings of every length class up to 90000 bytes in all five containers "
+    "and compares them with `sfmodel meta`. Remaining string limit = the header buffer (known finding C13-header-cache, narrowed)."
+)
+CLAIMED["C13"]["text"] += (
+    " Round 5: psf_bump_header_allocation is repaired (grows to the 100 KiB limit when the request fits): hdr_fits_up_to_cap proves that ANY list of chunks ending 16 bytes below the limit is kept whole in both "
+    "header passes, one_chunk_always_fits that a single chunk of up to 64 KiB always fits (the limit moved from 51200 bytes), chunks_roundtrip_within_cap states the round trip with that explicit size hypothesis; "
+    "one_big_chunk_is_dropped_old_rule keeps the former rule. The remaining known-finding class is `header longer than 100 KiB` (two 64 KiB chunks: chunks_beyond_cap_dropped, hdr_not_always_fits)."
+)
+CLAIMED["C03"]["text"] += (
+    " Round 5: the header-cache model follows the repaired psf_bump_header_allocation (hdr_inv / hdr_in_bounds re-proved, bump_denied_old_rule), the INFO and AIFF text sites follow the heap buffers sized by the chunk "
+    "(info_string_in_bounds, labl_in_bounds, aiff_text_in_bounds for the new rule, *_old_rule for the fixed buffers) and info_skip_goes_forward proves that a skipped INFO item moves the walk forward "
+    "(the 64-bit bound that the fuzz stage of this check demanded of the repair: a wrapped 32-bit size made a first version of it loop)."
+)
 
 
 def main():
